@@ -244,6 +244,17 @@ fn continue_from(out : &mut Out, disk : &Disk, mode : ClockMode, clock : u64, op
                         }
                     }
                 }
+                if c07
+                {
+                    // C08 after the crash: what was at a target path or in the cache before this invocation is still somewhere
+                    let at_risk = |disk : &Disk| -> BTreeSet<Vec<u8>> { disk.files.iter().filter(|(p, _)| p.starts_with(&cache_prefix()) || (!in_ruler_dir(p) && !["a", "b", "u", RULES_PATH].contains(&p.as_str()))).map(|(_, n)| (*n.content).clone()).collect() };
+                    let before = at_risk(&inv.before);
+                    let after = at_risk(&inv.after);
+                    if let Some(lost) = before.iter().find(|c| !after.contains(*c))
+                    {
+                        out.violation("C08:content-lost-after-crash-coarse-clock", format!("after the crash and {}: the content {:?} was at a target path or in the cache before that invocation and is nowhere after it", op.describe(), String::from_utf8_lossy(lost)), replay.clone());
+                    }
+                }
                 if let Op::Build(_) = op { res.push((inv.verdict.show(), disk_files(&inv.after))); }
             },
             _ => { d.user(op); d.tick(); },
